@@ -82,6 +82,7 @@ METHODS = {
     (None, "_get_regex"): dict(coq="ent_regex", kind="pure"),
     (None, "__subclasses__"): dict(coq="pcl_subclasses", kind="pure"),
     (None, "is_valid"): dict(coq="StructuredRecord_is_valid", kind="gen"),
+    ("cls", "structure"): dict(coq="cls_structure", kind="pure"),
     ("annotations", "get"): dict(coq="ann_get_%(key)s", kind="pure", constkey=True),
     (None, "overhang_start"): dict(coq="ent_overhang_start", kind="exc"),
     (None, "overhang_end"): dict(coq="ent_overhang_end", kind="exc"),
@@ -101,6 +102,7 @@ FUNCS = {
     "FeatureLocation/2": dict(coq="mk_FeatureLocation2", kind="pure"),
     "isabstract": dict(coq="pcl_isabstract", kind="pure"),
     "iter": dict(coq="dict_keys", kind="pure"),
+    "DNARegex": dict(coq="mk_DNARegex", kind="pure"),
     "copy.deepcopy": dict(coq="py_deepcopy", kind="pure"),
     "SeqRecord": dict(coq="mk_SeqRecord", kind="pure"),
     "SeqRecord/1": dict(coq="mk_SeqRecord1", kind="pure"),
@@ -305,6 +307,10 @@ class Fn(object):
 
     def attribute(self, e):
         src = ast.unparse(e)
+        if self.spec.get("clsstate") and isinstance(e.value, ast.Name) and e.value.id == "cls" \
+                and e.attr not in ("__dict__", "__name__"):
+            # reading a class attribute: ordinary lookup along the MRO in the class namespaces
+            return [], '(ns_lookup st cls "%s"%%string)' % e.attr
         if src in ("six.MAXSIZE",):
             return [], "py_MAXSIZE"
         if e.attr == "__name__":
@@ -414,6 +420,10 @@ class Fn(object):
                 b, _ = self.expr(x)
                 bs += b
             return bs, "tt"
+        if self.spec.get("clsstate") and src == "cls.__dict__.get" and len(e.args) == 1 \
+                and isinstance(e.args[0], ast.Constant) and isinstance(e.args[0].value, str):
+            # the class's own namespace only
+            return [], '(ns_own st cls "%s"%%string)' % e.args[0].value
         if src == "isinstance":
             t = ast.unparse(e.args[1])
             key = "isinstance(%s, %s)" % (ast.unparse(e.args[0]), t)
@@ -658,6 +668,9 @@ class Fn(object):
                         add(t.value.id)
                     elif isinstance(t, ast.Attribute) and isinstance(t.value, ast.Name) and t.value.id == "self":
                         add("self_" + t.attr)
+                    elif isinstance(t, ast.Attribute) and isinstance(t.value, ast.Name) and t.value.id == "cls" \
+                            and self.spec.get("clsstate"):
+                        add("st")
                     else:
                         raise Unsupported("assignment target %s" % ast.unparse(t))
                 m = self.mutating_call(s.value)
@@ -763,6 +776,8 @@ class Fn(object):
             atom = "(Some %s)" % atom
         if self.warns:
             atom = "(%s, warnings_acc)" % atom
+        if self.spec.get("clsstate"):
+            atom = "(%s, st)" % atom
         return atom
 
     def block(self, stmts, defined, fall, retwrap):
@@ -837,6 +852,9 @@ class Fn(object):
                 and isinstance(t.slice.value, str) and t.slice.value.isidentifier():
             x = cname(t.value.id)
             return self.bind_text(b) + "let %s := ann_set_%s %s %s in\n" % (x, t.slice.value, x, a) + cont(defined)
+        if isinstance(t, ast.Attribute) and isinstance(t.value, ast.Name) and t.value.id == "cls" \
+                and self.spec.get("clsstate"):
+            return self.bind_text(b) + 'let st := ns_set st cls "%s"%%string %s in\n' % (t.attr, a) + cont(defined | {"st"})
         if isinstance(t, ast.Attribute) and isinstance(t.value, ast.Name) and t.value.id == "self" \
                 and self.spec.get("init"):
             return self.bind_text(b) + "let self_%s := %s in\n" % (t.attr, a) + cont(defined | {"self_" + t.attr})
@@ -994,6 +1012,8 @@ class Fn(object):
         if f.args.vararg or f.args.kwarg or f.args.kwonlyargs:
             raise Unsupported("varargs")
         defined = set(params)
+        if self.spec.get("clsstate"):
+            defined.add("st")
         pre = ""
         if self.warns:
             pre = "let warnings_acc := [] in\n"
@@ -1018,7 +1038,7 @@ class Fn(object):
 
 def binder(sp):
     out = ["(fuel : nat)"] if sp.get("fuel") else []
-    for n, t in sp["sig"]:
+    for n, t in list(sp["sig"]) + list(sp.get("extra_sig", ())):
         out.append("(%s : %s)" % (cname(n), t))
     return " ".join(out)
 
